@@ -5,7 +5,7 @@ LEVEL = "proof"
 THEOREMS = ["C04_count_additive", "C04_small_primes_split", "C04_tiling_counts", "C04_segments_ok", "C04_segments_terminate", "C04_step_tables_ok", "C04_step_lift",
             "C04_cross_off_refines", "C04_kernel_segment", "C04_kernel_next_states", "C04_addSievingPrime_state", "C04_addSievingPrime_none",
             "C04_erat_kernel_correct", "C04_surviving_are_primes", "C04_kernel_run_example", "C04_presieve_tables_ok", "C04_primeBits_ok",
-            "C04_presieve_bit_spec", "C04_erat_kernel_presieved", "C04_presieved_segment_spec", "C04_kernel_run_ps_example", "C04_erat_model_spec", "C04_count_model_kernel", "C04_end_masks_ok"]
+            "C04_presieve_bit_spec", "C04_erat_kernel_presieved", "C04_presieved_segment_spec", "C04_kernel_run_ps_example", "C04_erat_model_spec", "C04_count_model_kernel", "C04_end_masks_ok", "C04_erat_self_spec"]
 ASSUMPTIONS = [
     "erat_spec (the segmented sieve marks exactly the primes of [max(start,7), stop]) is the hypothesis under which the count equals the specification. Proved of the kernel: segment geometry, step tables, cross-off loop = specification, the per-segment theorem (bit set iff prime), state hand-over between segments, addSievingPrime's initial state. NOT proved: their assembly over the segment loop, SievingPrimes, presieve, EratMedium/EratBig bucket lists and SievingPrime bit packing, bit decoding, masking at the interval ends - exercised by the correspondence at segment seams, byte/bit edges, p*q boundaries, sieve arrays above 4 MiB, 7 sieve sizes, 1..16 threads, two dispatch builds, and by the cross-off unit comparison (XOFF)",
     "popcount (POPCNT instruction / Harley-Seal) is modelled as the number of set bits",
@@ -179,6 +179,16 @@ def correspond(ctx, scale=1):
         if got != want or i_.split()[1] != str(len(prs)):
             mm.append({"key": "kernel-model", "what": "kernel on [%d, %d] (%d KiB): model kernel gives (count, checksum, first, last) = %s, the oracle %s, count_primes %s" % (c[0], c[1], c[2], got, want, i_),
                        "failing_input": ({"start": c[0], "stop": c[1], "sieve_size": c[2], "observed": i_, "expected": len(prs)} if i_.split()[1] != str(len(prs)) else None)})
+    # the self-contained model kernel (erat_self: recursion for the sieving primes, model-side decoding) on small intervals: the whole list
+    es = [(7, 5000, 16), (1000, 9000, 17), (7, 20000, 32), (7, 7, 16), (9000, 9000 + rng.below(3000), 16), (rng.between(7, 3000), 12000, 23)]
+    rcm, om, em = ps.run([model], input="".join("LEAF eratself %s %d %d %d\n" % (l1s[0], c[2], c[0], c[1]) for c in es), timeout=900)
+    dist["erat_self_runs"] = len(es)
+    for c, m_ in zip(es, (om.splitlines() + [""] * len(es))[:len(es)]):
+        ev += 1
+        want = " ".join(str(p_) for p_ in oracle.segment_primes(c[0], c[1]))
+        sigs.add(("erat-self", c[2]))
+        if m_.strip() != want:
+            mm.append({"key": "kernel-model", "what": "erat_self on [%d, %d] (%d KiB) returns %s..., the oracle %s..." % (c[0], c[1], c[2], m_[:80], want[:80]), "failing_input": None})
     mm.sort(key=lambda m_: 0 if m_.get("failing_input") else 1)
     return {"evaluations": ev, "distinct_nontrivial": len(sigs),
             "rule": "intervals aimed at segment seams (geometry queried from the real Erat::init for sieve sizes %s), stops on/just past a seam, p*q on the last bit of a segment, byte/bit edges, start <= 5 < stop, stop = p*q, empty and one-byte intervals, all 0 <= a <= b < 40; threads 1/2/4/16. distinct = distinct (build, reason, sieve size, start mod 30, stop mod 30)" % countlib.SIEVE_SIZES,
